@@ -78,6 +78,12 @@ def _run(ctx):
         txt = f.read()
     if "is violated" not in txt:
         raise lib.ToolError("the as_shipped variant of History.tla is not rejected by TLC: the model lost its teeth")
+    bad2 = lib.tlc(ctx, "mc_truncate", "MC_History.tla", "MC_History_truncate.cfg", workers=2, timeout=600,
+                   expect_ok=False, count=False)
+    with open(bad2["out"], errors="replace") as f:
+        txt = f.read()
+    if "is violated" not in txt:
+        raise lib.ToolError("the truncate_to_keep variant of History.tla is not rejected by TLC: the model lost its teeth")
     beh = ctx.path("behaviours.ndjson")
     if ctx.replay:
         with open(ctx.replay) as f:
